@@ -223,11 +223,22 @@ func (s *ReverseSuffixSearcher) Find(haystack []byte) *Match {
 	// Try each suffix candidate left-to-right until we find a valid match.
 	// This ensures leftmost semantics for multi-wildcard patterns.
 	pos := firstPos
+	// Anti-quadratic guard: a candidate's reverse scan never goes back over the
+	// bytes an earlier candidate's scan already covered.
+	minStart := 0
 	for pos >= 0 && pos+s.suffixLen <= len(haystack) {
 		revEnd := pos + s.suffixLen
 
 		// Use reverse DFA to find match START position
-		matchStart := s.reverseDFA.SearchReverse(revCache, haystack, 0, revEnd)
+		matchStart := s.reverseDFA.SearchReverseLimited(revCache, haystack, 0, revEnd, minStart)
+		if matchStart == lazy.SearchReverseLimitedQuadratic {
+			// Quadratic behavior detected - fall back to PikeVM
+			start, end, found := s.pikevm.Search(haystack)
+			if found {
+				return NewMatch(start, end, haystack)
+			}
+			return nil
+		}
 		if matchStart >= 0 {
 			// Forward verification: get correct greedy match end.
 			matchEnd := s.forwardDFA.SearchAt(fwdCache, haystack, matchStart)
@@ -240,6 +251,9 @@ func (s *ReverseSuffixSearcher) Find(haystack []byte) *Match {
 				return NewMatch(start, end, haystack)
 			}
 		}
+
+		// Update anti-quadratic guard: don't re-scan before this position
+		minStart = revEnd
 
 		// Try next suffix candidate
 		next := bytes.Index(haystack[pos+1:], s.suffixBytes)
